@@ -14,6 +14,7 @@ package eng
 import (
 	"fmt"
 	"go/token"
+	"go/types"
 	"sort"
 	"strings"
 
@@ -103,18 +104,83 @@ func isDiscarded(v ssa.Value) bool {
 	return true
 }
 
-// AnalyzeLexer runs the typestate analysis on fn.
-func AnalyzeLexer(fn *ssa.Function, cfg LexConfig) *LexResult {
-	res := &LexResult{Blocks: len(fn.Blocks)}
-	type stateSet map[string]bool
-	in := map[*ssa.BasicBlock]stateSet{}
-	in[fn.Blocks[0]] = stateSet{"D": true}
+type lexStateSet map[string]bool
+
+func (s lexStateSet) key() string {
+	var ks []string
+	for k := range s {
+		ks = append(ks, k)
+	}
+	sort.Strings(ks)
+	return strings.Join(ks, "|")
+}
+
+func unionStates(dst lexStateSet, src lexStateSet) {
+	for k := range src {
+		dst[k] = true
+	}
+}
+
+// lexSummary: states at the returns of a helper, split by the constant boolean it returns.
+type lexSummary struct {
+	onTrue, onFalse, other lexStateSet
+}
+
+type lexAnalysis struct {
+	cfg   LexConfig
+	recv  string // receiver type of the lexer methods
+	found map[string]LexFinding
+	memo  map[string]*lexSummary
+	depth int
+}
+
+func (la *lexAnalysis) isHelper(f *ssa.Function) bool {
+	if f == nil || len(f.Blocks) == 0 || f.Signature.Recv() == nil {
+		return false
+	}
+	if f == la.cfg.Peek || f == la.cfg.Read || f == la.cfg.Unread || f == la.cfg.EOF || contains(la.cfg.MatchLike, f) {
+		return false
+	}
+	if f.Signature.Recv().Type().String() != la.recv {
+		return false
+	}
+	// does it (transitively, one level) use lexer primitives?
+	for _, b := range f.Blocks {
+		for _, ins := range b.Instrs {
+			if call, ok := ins.(ssa.CallInstruction); ok {
+				n := methodName(call.Common())
+				if n != nil && (n == la.cfg.Peek || n == la.cfg.Read || n == la.cfg.Unread || contains(la.cfg.MatchLike, n) || (n != f && la.isHelper(n))) {
+					return true
+				}
+			}
+		}
+	}
+	return false
+}
+
+// run analyses fn from the given entry states and returns the states at its returns.
+func (la *lexAnalysis) run(fn *ssa.Function, entry lexStateSet, argDesc []string) *lexSummary {
+	mk := fmt.Sprintf("%p|%s|%v", fn, entry.key(), argDesc)
+	if s, ok := la.memo[mk]; ok {
+		return s
+	}
+	sum := &lexSummary{onTrue: lexStateSet{}, onFalse: lexStateSet{}, other: lexStateSet{}}
+	la.memo[mk] = sum // recursion guard: a recursive call sees the (growing) summary
+	if la.depth > 5 {
+		unionStates(sum.other, entry)
+		return sum
+	}
+	la.depth++
+	defer func() { la.depth-- }()
+	cfg := la.cfg
+	in := map[*ssa.BasicBlock]lexStateSet{}
+	in[fn.Blocks[0]] = lexStateSet{}
+	unionStates(in[fn.Blocks[0]], entry)
 	work := []*ssa.BasicBlock{fn.Blocks[0]}
-	found := map[string]LexFinding{}
-	add := func(dst *ssa.BasicBlock, st stateSet) {
+	add := func(dst *ssa.BasicBlock, st lexStateSet) {
 		cur := in[dst]
 		if cur == nil {
-			cur = stateSet{}
+			cur = lexStateSet{}
 			in[dst] = cur
 		}
 		changed := false
@@ -128,27 +194,39 @@ func AnalyzeLexer(fn *ssa.Function, cfg LexConfig) *LexResult {
 			work = append(work, dst)
 		}
 	}
-	origins := map[ssa.Value]string{} // match-like call value -> origin description
+	origins := map[ssa.Value]string{}        // match-like call value -> origin description
+	helperSums := map[ssa.Value]*lexSummary{} // helper call value -> summary
 	for len(work) > 0 {
 		b := work[len(work)-1]
 		work = work[:len(work)-1]
-		st := stateSet{}
-		for s := range in[b] {
-			st[s] = true
-		}
+		st := lexStateSet{}
+		unionStates(st, in[b])
 		for _, ins := range b.Instrs {
 			call, ok := ins.(ssa.CallInstruction)
 			if !ok {
 				continue
 			}
 			name := methodName(call.Common())
+			// unresolved pending states that meet another primitive are treated as Boundary
+			settle := func() {
+				for s := range st {
+					if strings.HasPrefix(s, "P:") {
+						delete(st, s)
+						st["B:"+strings.TrimPrefix(s, "P:")] = true
+					}
+					if strings.HasPrefix(s, "H:") {
+						delete(st, s)
+					}
+				}
+			}
 			switch {
 			case name == nil:
 			case name == cfg.Peek:
-				st = stateSet{"D": true}
+				st = lexStateSet{"D": true}
 			case name == cfg.Unread:
-				st = stateSet{"C": true}
+				st = lexStateSet{"C": true}
 			case name == cfg.Read:
+				settle()
 				v, _ := ins.(ssa.Value)
 				peekIdiom := v != nil && flowsToUnread(v, cfg.Unread, map[ssa.Value]bool{})
 				for s := range st {
@@ -158,20 +236,19 @@ func AnalyzeLexer(fn *ssa.Function, cfg LexConfig) *LexResult {
 							use = "discarded"
 						}
 						origin := strings.TrimPrefix(s, "B:")
-						key := fmt.Sprintf("%s: %s (%s) right after a successful %s", "lex", "readRune", use, origin)
-						if _, dup := found[key]; !dup {
+						key := fmt.Sprintf("lex: readRune (%s) right after a successful %s", use, origin)
+						if _, dup := la.found[key]; !dup {
 							d := "a delimiter was just consumed by " + origin + " and the next rune is consumed without being examined"
 							if use == "discarded" {
 								d += ": the first rune of an adjacent lexeme is swallowed"
 							} else {
 								d += ": it becomes content before the end delimiter was tested"
 							}
-							found[key] = LexFinding{Key: key, Pos: ins.Pos(), Detail: d}
+							la.found[key] = LexFinding{Key: key, Pos: ins.Pos(), Detail: d}
 						}
 					}
 				}
-				res.Reads++
-				st = stateSet{"D": true}
+				st = lexStateSet{"D": true}
 			case contains(cfg.MatchLike, name):
 				v, _ := ins.(ssa.Value)
 				o := roleName(cfg, name) + "("
@@ -179,17 +256,92 @@ func AnalyzeLexer(fn *ssa.Function, cfg LexConfig) *LexResult {
 					if i > 0 {
 						o += ", "
 					}
-					o += lexArgDesc(cfg, a)
+					o += la.argDesc(fn, argDesc, a)
 				}
 				o += ")"
 				if v != nil {
 					origins[v] = o
 				}
-				st = stateSet{"P:" + o: true}
+				st = lexStateSet{"P:" + o: true}
+			case la.isHelper(name):
+				settle()
+				var descs []string
+				for _, a := range call.Common().Args {
+					descs = append(descs, la.argDesc(fn, argDesc, a))
+				}
+				hs := la.run(name, st, descs)
+				v, _ := ins.(ssa.Value)
+				all := lexStateSet{}
+				unionStates(all, hs.onTrue)
+				unionStates(all, hs.onFalse)
+				unionStates(all, hs.other)
+				if v != nil && isBoolType(v.Type()) {
+					helperSums[v] = hs
+					id := fmt.Sprintf("H:%p", v)
+					st = lexStateSet{id: true}
+					// keep the union under a marker so that an unbranched use falls back to it
+					for s := range all {
+						st["U:"+id+":"+s] = true
+					}
+				} else {
+					st = all
+				}
 			}
 		}
-		// terminator
+		// expand helper markers when the block does not branch on the helper's result
+		expand := func(st lexStateSet, pick func(hs *lexSummary) lexStateSet, hv ssa.Value) lexStateSet {
+			out := lexStateSet{}
+			for s := range st {
+				switch {
+				case strings.HasPrefix(s, "H:"):
+				case strings.HasPrefix(s, "U:"):
+					if hv == nil {
+						parts := strings.SplitN(s, ":", 4) // U, H, ptr, state  (state may contain ':')
+						if len(parts) == 4 {
+							out[parts[3]] = true
+						}
+					}
+				default:
+					out[s] = true
+				}
+			}
+			if hv != nil {
+				unionStates(out, pick(helperSums[hv]))
+			}
+			return out
+		}
 		last := b.Instrs[len(b.Instrs)-1]
+		if ret, ok := last.(*ssa.Return); ok {
+			fin := expand(st, nil, nil)
+			// pending match results at a return stay pending for the caller only as Boundary
+			out := lexStateSet{}
+			for s := range fin {
+				if strings.HasPrefix(s, "P:") {
+					out["B:"+strings.TrimPrefix(s, "P:")] = true
+				} else {
+					out[s] = true
+				}
+			}
+			bucket := sum.other
+			if len(ret.Results) >= 1 {
+				if cst, ok := ret.Results[0].(*ssa.Const); ok && cst.Value != nil && isBoolType(cst.Type()) {
+					if cst.Value.String() == "true" {
+						bucket = sum.onTrue
+					} else {
+						bucket = sum.onFalse
+					}
+				} else if len(ret.Results) >= 1 {
+					// returning the result of a match-like call directly: true => Boundary, false => Decided
+					if o, ok := origins[ret.Results[0]]; ok && st["P:"+o] {
+						sum.onTrue["B:"+o] = true
+						sum.onFalse["D"] = true
+						continue
+					}
+				}
+			}
+			unionStates(bucket, out)
+			continue
+		}
 		if ifi, ok := last.(*ssa.If); ok {
 			cond := ifi.Cond
 			neg := false
@@ -210,7 +362,18 @@ func AnalyzeLexer(fn *ssa.Function, cfg LexConfig) *LexResult {
 				}
 			}
 			if isMatch && st["P:"+o] {
-				t, f := stateSet{"B:" + o: true}, stateSet{"D": true}
+				t, f := lexStateSet{"B:" + o: true}, lexStateSet{"D": true}
+				if neg {
+					t, f = f, t
+				}
+				add(b.Succs[0], t)
+				add(b.Succs[1], f)
+				continue
+			}
+			if hs, ok := helperSums[cond]; ok && st[fmt.Sprintf("H:%p", cond)] {
+				t := expand(st, func(h *lexSummary) lexStateSet { u := lexStateSet{}; unionStates(u, h.onTrue); unionStates(u, h.other); return u }, cond)
+				f := expand(st, func(h *lexSummary) lexStateSet { u := lexStateSet{}; unionStates(u, h.onFalse); unionStates(u, h.other); return u }, cond)
+				_ = hs
 				if neg {
 					t, f = f, t
 				}
@@ -219,9 +382,8 @@ func AnalyzeLexer(fn *ssa.Function, cfg LexConfig) *LexResult {
 				continue
 			}
 		}
-		// unresolved pending states are treated as Boundary (the match may have consumed)
-		out := stateSet{}
-		for s := range st {
+		out := lexStateSet{}
+		for s := range expand(st, nil, nil) {
 			if strings.HasPrefix(s, "P:") {
 				out["B:"+strings.TrimPrefix(s, "P:")] = true
 			} else {
@@ -232,29 +394,71 @@ func AnalyzeLexer(fn *ssa.Function, cfg LexConfig) *LexResult {
 			add(s, out)
 		}
 	}
-	for _, b := range fn.Blocks {
-		for _, ins := range b.Instrs {
-			if call, ok := ins.(ssa.CallInstruction); ok && contains(cfg.MatchLike, methodName(call.Common())) {
-				res.MatchCalls++
+	return sum
+}
+
+// argDesc describes a delimiter argument; a parameter of a helper is described by what the caller passed.
+func (la *lexAnalysis) argDesc(fn *ssa.Function, ctx []string, v ssa.Value) string {
+	if prm, ok := v.(*ssa.Parameter); ok && ctx != nil {
+		for i, q := range fn.Params {
+			if q == prm && i < len(ctx) {
+				return ctx[i]
 			}
 		}
 	}
+	return lexArgDesc(la.cfg, v)
+}
+
+func isBoolType(t types.Type) bool {
+	b, ok := t.Underlying().(*types.Basic)
+	return ok && b.Kind() == types.Bool
+}
+
+// AnalyzeLexer runs the typestate analysis on fn, following calls to helper methods of the same
+// receiver that use the lexer primitives (summaries per entry state and returned boolean).
+func AnalyzeLexer(fn *ssa.Function, cfg LexConfig) *LexResult {
+	res := &LexResult{Blocks: len(fn.Blocks)}
+	la := &lexAnalysis{cfg: cfg, found: map[string]LexFinding{}, memo: map[string]*lexSummary{}}
+	if fn.Signature.Recv() != nil {
+		la.recv = fn.Signature.Recv().Type().String()
+	}
+	la.run(fn, lexStateSet{"D": true}, nil)
+	// static counts over lex and its helpers
+	seen := map[*ssa.Function]bool{}
+	var count func(f *ssa.Function)
+	count = func(f *ssa.Function) {
+		if seen[f] {
+			return
+		}
+		seen[f] = true
+		for _, b := range f.Blocks {
+			for _, ins := range b.Instrs {
+				if call, ok := ins.(ssa.CallInstruction); ok {
+					n := methodName(call.Common())
+					if n == nil {
+						continue
+					}
+					if contains(cfg.MatchLike, n) {
+						res.MatchCalls++
+					}
+					if n == cfg.Read {
+						res.Reads++
+					}
+					if la.isHelper(n) {
+						count(n)
+					}
+				}
+			}
+		}
+	}
+	count(fn)
 	var keys []string
-	for k := range found {
+	for k := range la.found {
 		keys = append(keys, k)
 	}
 	sort.Strings(keys)
 	for _, k := range keys {
-		res.Findings = append(res.Findings, found[k])
-	}
-	// res.Reads counted per visit; recount statically
-	res.Reads = 0
-	for _, b := range fn.Blocks {
-		for _, ins := range b.Instrs {
-			if call, ok := ins.(ssa.CallInstruction); ok && methodName(call.Common()) == cfg.Read {
-				res.Reads++
-			}
-		}
+		res.Findings = append(res.Findings, la.found[k])
 	}
 	return res
 }
